@@ -2149,10 +2149,15 @@ impl HttpsProxy {
             crate::router::HstsOrigin::Explicit
         };
 
-        listener.set_tags(front.hostname.to_owned(), front.tags.to_owned());
+        // the tags are recorded only once the route is in: a frontend the
+        // router refuses must not replace the tags of a hostname that other,
+        // accepted frontends already serve
+        let hostname = front.hostname.to_owned();
+        let tags = front.tags.to_owned();
         listener
             .add_https_front_with_hsts_origin(front, hsts_origin)
             .map_err(ProxyError::AddFrontend)?;
+        listener.set_tags(hostname, tags);
         Ok(None)
     }
 
